@@ -132,6 +132,32 @@ example : (∀ op ∈ histPark, Op2Ok op) ∧ u32Guard (K := ℚ) (0, 0) histPar
     unfold MAXN; omega
   all_goals trivial
 
+/-- the hypotheses of `rebalance_preserves_inv_sized` / `rebalance_preserves_boxInv_sized` hold on a non-trivial state: the
+tree reached by the first five operations of `histPark` (six leaves rebuilt, three removed, refit; 6 nodes, 6 proxies) -/
+example : ∃ w : World ℚ, run2 true World.empty (histPark.take 5) = some w ∧ Inv w.q ∧ DataOk w.q ∧
+    4 * w.q.nodes.size + 3 * w.q.proxies.size ≤ MAXN ∧ 4 * w.q.proxies.size + 2 ≤ MAXN ∧ 0 < w.q.nodes.size := by
+  have hs : (run2 true World.empty (histPark.take 5)).map (fun w => (w.q.nodes.size, w.q.proxies.size)) = some (6, 6) := by
+    decide +kernel
+  have hok : ∀ op ∈ histPark.take 5, Op2Ok op := by
+    intro op hop
+    simp only [histPark, List.take, List.mem_cons, List.not_mem_nil, or_false] at hop
+    rcases hop with rfl | rfl | rfl | rfl | rfl
+    · refine ⟨by decide, ?_, by decide⟩
+      intro it hit
+      simp only [List.mem_map, List.mem_range] at hit
+      obtain ⟨i, hi, rfl⟩ := hit
+      show i < MAXN
+      unfold MAXN; omega
+    all_goals trivial
+  cases h : run2 true World.empty (histPark.take 5) with
+  | none => rw [h] at hs; cases hs
+  | some w =>
+    rw [h] at hs
+    simp only [Option.map_some, Option.some.injEq, Prod.mk.injEq] at hs
+    obtain ⟨hi, hd⟩ := run2_preserves_inv_guarded true (histPark.take 5) w hok (by decide +kernel) h
+    obtain ⟨e1, e2⟩ := hs
+    refine ⟨w, rfl, hi, hd, ?_, ?_, by omega⟩ <;> (unfold MAXN; omega)
+
 end examples
 
 end C08
